@@ -10,6 +10,8 @@ for _k in list(TARGETS):
     TARGETS[_k.replace("-r1", "-r2")] = TARGETS[_k]
 TARGETS.update({"C03-r2": "C03 C10 C09 C02 C20", "C04-r2": "C04 C09", "C08-r2": "C08 C07", "C12-r2": "C12", "C16-r2": "C16 C15 C14",
                 "C17-r2": "C17 C16", "C18-r2": "C18", "C20-r2": "C20 C01 C02 C07 C03"})
+TARGETS.update({"C04-r3": "C04 C09", "C05-r3": "C05 C10 C03 C12", "C06-r3": "C06", "C09-r3": "C09 C10 C03 C04", "C10-r3": "C10 C09 C03 C11 C12 C05",
+                "C12-r3": "C12 C13", "C13-r3": "C13 C10 C03 C02", "C15-r3": "C15 C16 C14", "C16-r3": "C16 C14"})
 names = sys.argv[1:] or sorted(n for n in TARGETS if os.path.isdir("/verif/seeded/" + n))
 for n in names:
     ids = TARGETS[n]
